@@ -11,13 +11,15 @@ import (
 	"verif/internal/gen"
 	"verif/internal/gt"
 	"verif/internal/h"
+	"verif/internal/ops"
 	"verif/internal/ref"
 )
 
 func TestMain(m *testing.M) { h.Main(m) }
 
 type Case struct {
-	Reroot     int       `json:"reroot,omitempty"` // > 0: the tree is first re-rooted in memory at an inner node
+	Reroot     int       `json:"reroot,omitempty"`  // > 0: the tree is first re-rooted in memory at an inner node
+	History    []ops.Op  `json:"history,omitempty"` // edits applied in memory before the operation
 	Tree       *ref.Node `json:"tree"`
 	Kind       string    `json:"kind"` // length | support | depth
 	Thr        float64   `json:"thr"`
@@ -70,6 +72,9 @@ func genCase(t *rapid.T, thorough bool) Case {
 	if rapid.IntRange(0, 2).Draw(t, "rerootfirst") == 0 {
 		c.Reroot = 1 + rapid.IntRange(0, 1000).Draw(t, "rerootat")
 	}
+	if rapid.IntRange(0, 4).Draw(t, "hashistory") == 2 {
+		c.History = ops.GenHistory(t, 4)
+	}
 	var lens, sups []float64
 	m.Walk(func(x, p *ref.Node) {
 		if p != nil && x.Len != nil {
@@ -105,6 +110,17 @@ func check(c Case) error {
 	t, err := gt.FromModel(c.Tree)
 	if err != nil {
 		return fmt.Errorf("parser rejects the start tree: %v", err)
+	}
+	if len(c.History) > 0 {
+		// 1-4 name-preserving edits of the tree object in memory; the oracle works on the model read back
+		if t2, m2, ok, herr := ops.Replay(t, c.History); herr != nil {
+			return herr
+		} else if ok {
+			t, c.Tree = t2, m2
+			c.Reroot = 0 // the history re-roots by itself (RerootBoth needs a freshly parsed tree)
+		} else if t, err = gt.FromModel(c.Tree); err != nil {
+			return err
+		}
 	}
 	if c.Reroot > 0 {
 		rm, _, err := gt.RerootBoth(t, c.Tree, c.Reroot-1)
@@ -265,7 +281,7 @@ func pf(p *float64) string {
 func TestC07Collapse(t *testing.T) {
 	h.Run(t, h.Spec[Case]{
 		Property: "C07", Name: "collapse", Quick: 24000, Thorough: 1200000,
-		Rule: "trees (3..12 tips, 5% up to 40/200; lengths none/all/mixed incl. zeros; supports mixed/all or inner names) x {length, support, depth} x thresholds drawn from {present value, midpoint of two, below min, above max, 0, negative} / depth intervals incl. empty x removeRoot x removeTips; oracle = exact clade-set algebra with the documented predicates (length<=l, support present and <s, min<=depth<=max), attributes of kept clades; non-trivial = >=1 branch collapsed and >=1 inner branch kept",
+		Rule:  "trees (3..12 tips, 5% up to 40/200; lengths none/all/mixed incl. zeros; supports mixed/all or inner names) x {length, support, depth} x thresholds drawn from {present value, midpoint of two, below min, above max, 0, negative} / depth intervals incl. empty x removeRoot x removeTips; oracle = exact clade-set algebra with the documented predicates (length<=l, support present and <s, min<=depth<=max), attributes of kept clades; non-trivial = >=1 branch collapsed and >=1 inner branch kept",
 		Gen:   genCase,
 		Check: check,
 		Classify: func(c Case) (bool, []string) {
@@ -337,15 +353,27 @@ func TestC07Collapse(t *testing.T) {
 // ---------------------------------------------------------------------------------------
 
 type ResCase struct {
-	Tree   *ref.Node `json:"tree"`
-	Seed   int64     `json:"seed"`
-	Reroot int       `json:"reroot,omitempty"`
+	Tree    *ref.Node `json:"tree"`
+	Seed    int64     `json:"seed"`
+	Reroot  int       `json:"reroot,omitempty"`
+	History []ops.Op  `json:"history,omitempty"`
 }
 
 func checkResolve(c ResCase) error {
 	t, err := gt.FromModel(c.Tree)
 	if err != nil {
 		return fmt.Errorf("parser rejects the start tree: %v", err)
+	}
+	if len(c.History) > 0 {
+		// 1-4 name-preserving edits of the tree object in memory; the oracle works on the model read back
+		if t2, m2, ok, herr := ops.Replay(t, c.History); herr != nil {
+			return herr
+		} else if ok {
+			t, c.Tree = t2, m2
+			c.Reroot = 0 // the history re-roots by itself (RerootBoth needs a freshly parsed tree)
+		} else if t, err = gt.FromModel(c.Tree); err != nil {
+			return err
+		}
 	}
 	if c.Reroot > 0 {
 		rm, _, err := gt.RerootBoth(t, c.Tree, c.Reroot-1)
@@ -433,6 +461,9 @@ func TestC07Resolve(t *testing.T) {
 			c := ResCase{Tree: gen.Tree(t, treeOpts(t, thorough)), Seed: rapid.Int64Range(0, 1<<40).Draw(t, "seed")}
 			if rapid.IntRange(0, 2).Draw(t, "rerootfirst") == 0 {
 				c.Reroot = 1 + rapid.IntRange(0, 1000).Draw(t, "rerootat")
+			}
+			if rapid.IntRange(0, 4).Draw(t, "hashistory") == 2 {
+				c.History = ops.GenHistory(t, 4)
 			}
 			return c
 		},
